@@ -9,15 +9,17 @@
      C06_registry_static, C06_registry_order_free   -- hypotheses: modules added parents first, distinct qualified
         names ("each name is bound once per scope", for definitions), no import that re-exports (an imported name is
         never listed in the importer's __all__; a module with a star import exports nothing).  Import cycles, late
-        imports, aliases, plain imports, star imports that do not re-export are all allowed.
-     C06_schedules_covered                            -- the orders the real tool can realise are permutations of the
-        module indices, i.e. instances of the quantifier of the theorems.
+        imports, aliases, plain imports, star imports that do not re-export are all allowed.  The theorem also says
+        that the machine terminates within its fuel and never trips an assert of processModule/getProcessedModule.
+     (C07_moved_once in Props/C07.v is the order-independence of the location of ONE re-exported object:
+        C06_single_reexporter of DESIGN.md for a single designated re-export.)
    REFUTED on the faithful model (pydoctor really depends on the order; known findings in known_findings/C06.json):
      C06_dup_in_cycle_refuted, C06_stale_name_refuted, C06_moved_class_rescoped_refuted,
      C06_reexport_in_cycle_refuted, C06_star_in_cycle_refuted.
    NOT PROVED (sampled by the correspondence check and the two-schedule oracle only): order independence of the
-   resolved bases (C06_bases_order_free, C06_cycles_hierarchy of DESIGN.md) and of the location of a re-exported
-   object for general projects (C06_single_reexporter; the single designated re-export is C07_moved_once).
+   resolved bases (C06_bases_order_free, C06_cycles_hierarchy of DESIGN.md: needs monotonicity of expandName along a
+   run), C06_alias_maps_syntactic, C06_schedules_reachable (every order the real tool realises is a permutation of the
+   module indices -- the theorems quantify over ALL permutations, a superset), several re-exports in one project.
    Residual of the model: nested classes, imports inside class bodies, Class.find, duplicate module names,
    unparsable modules; the C3 linearisation is a function of the resolved bases (C05). *)
 From Coq Require Import ZArith NArith List Bool Permutation.
